@@ -1,7 +1,7 @@
 """C04 - The bounded stack is a faithful, all-or-nothing LIFO."""
 from .pat import ANY, Bind, Call, Param, CParam, Field, Through, Agg, Const, BinOp, match, find, callee_is, path_ends
 from .sym import short, subexprs
-from .common import (TryOk, TryErr, is_err_return, return_paths, peel, mentions, derives_from_self, closure_paths, cond_str, self_field,
+from .common import (site_is, TryOk, TryErr, is_err_return, return_paths, peel, mentions, derives_from_self, closure_paths, cond_str, self_field,
                      audit_panics, CallGraph)
 
 META = {
@@ -346,7 +346,7 @@ def guard_tail_range(ctx, s):
     for p in ctx.paths(fn):
         cs = p.calls()
         for c in cs:
-            if c[4] == (s["fn"], s["block"]):
+            if site_is(c, s):
                 saved = [x for x in cs if callee_is(x, "Vec::len") and is_values(x[3][0])]
                 shr = [x for x in cs[:cs.index(c)] if callee_is(x, "Vec::truncate", "Vec::pop", "Vec::clear", "Vec::drain", "Vec::remove", "Vec::split_off")]
                 ok = bool(saved) and match(c[3][1], Agg("RangeFrom::RangeFrom", lambda e: e == saved[0])) and not shr and is_values(c[3][0])
